@@ -150,6 +150,7 @@ func cmdCheck(args []string) int {
 		}
 	}
 	rep.obls = append(rep.obls, e.checkTableLemmas(prop)...)
+	rep.obls = append(rep.obls, e.checkWriters(prop)...)
 	for _, lf := range lemmaRegistry[prop] {
 		obls, notes, err := lf(e, prop)
 		if err != nil {
